@@ -549,6 +549,8 @@ int main(int argc, char** argv)
       int si = sb_idx(a1);
       tr::Ev e("reg");
       e.str("s", a1).str("f", a2).str("slot", a2);
+      // (the harness' own count: is every entry point of the backend handed out already?)
+      e.boolean("full", owners[si].count(a2) == 0 && (int)(owners[si].size() + fillers[si].size()) >= CAPACITY);
       try {
         owners[si].erase(a2);
         auto o = sb[si]->register_callback(cb_by_name(a2));
